@@ -169,8 +169,32 @@ func verif_contract_Checksum(b []byte) uint16 {
 
 func verif_inv_DHCP4_validateOptions_1() bool           { return true }
 func verif_dec_DHCP4_validateOptions_1(opts []byte) int { return len(opts) }
-func verif_inv_DHCP4_ParseOptions_1() bool              { return true }
-func verif_dec_DHCP4_ParseOptions_1(opts []byte) int    { return len(opts) }
+func verif_inv_DHCP4_ParseOptions_1(p DHCP4, opts []byte, options DHCP4Options) bool {
+	return options != nil && (opts == nil || (vSameRegion(opts, p) && vOffset(opts, p) >= 240 && vOffset(opts, p)+cap(opts) == cap(p))) &&
+		vMapAll(options, func(k DHCP4OptionCode, v []byte) bool { return spec_option_view(v, p) })
+}
+
+// spec_option_view: an option value as ParseOptions produces it: at most 255 bytes (one length
+// byte), a view of the message behind the fixed header whose capacity ends with the message buffer.
+func spec_option_view(v []byte, p DHCP4) bool {
+	return len(v) <= 255 && vSameRegion(v, p) && vOffset(v, p) >= 242 && vOffset(v, p)+cap(v) == cap(p)
+}
+
+// VerifSpecOptionsOf: o is what ParseOptions returns for p (as far as the handlers need it).
+func VerifSpecOptionsOf(o DHCP4Options, p DHCP4) bool {
+	return o != nil && vMapAll(o, func(k DHCP4OptionCode, v []byte) bool { return spec_option_view(v, p) })
+}
+
+// ParseOptions: total for ANY byte string; the values of the map it returns are views of p.
+//
+//verif:props C08
+func verif_contract_DHCP4_ParseOptions(p DHCP4) DHCP4Options {
+	vCanary()
+	o := p.ParseOptions()
+	vEnsures(vFreshMap(o) && VerifSpecOptionsOf(o, p))
+	return o
+}
+func verif_dec_DHCP4_ParseOptions_1(opts []byte) int { return len(opts) }
 func verif_inv_ICMP4Redirect_Addrs_1(i int, addr []net.IP, p ICMP4Redirect) bool {
 	return len(p) >= 8 && 0 <= i && i <= int(p[4]) && len(addr) == i && (i == 0 || (vSameRegion(addr[0], p) && vOffset(addr[0], p) == 8))
 }
